@@ -360,6 +360,41 @@ ROUND4_ADDENDA = {
 }
 for _id, _txt in ROUND4_ADDENDA.items():
     CHECKS[_id]["rule"] += ". Fourth round: " + _txt
+_ALL5 = ("two of the sixteen shards run a 32-bit build (GOARCH=386) of library and harness")
+_E2E5 = (_ALL5 + "; end to end: a copy of every transaction is taken inside the handler call and compared with what the same object reads after Stream returned; in half of the sessions "
+         "the handler then overwrites everything it can reach through the transaction it was handed (positions, event list, names, flags, value bytes) and the mapper hands out the same "
+         "table description object on every call; in a quarter of the cases the master's bytes arrive in pieces of 1 byte..16 KiB; statements carry thread id, execution time and a "
+         "non-zero error code")
+ROUND5_ADDENDA = {
+    "C01": _E2E5 + "; part: the same table id announced again with another definition",
+    "C02": _E2E5 + "; the retry part lets the caller reposition the streamer (SetBinlogPosition to an earlier accepted boundary) between attempts",
+    "C03": _E2E5,
+    "C04": _E2E5 + "; fault 'the write of the dump command fails on the replica's side'; the caller may reposition the streamer between attempts; handler errors include temporary / timeout "
+           "net errors; a mapper may fail while returning a complete table description",
+    "C05": _ALL5 + "; the caller's context may be of a type of its own (own Done channel); goroutines the standard library starts on the library's behalf (created in the Stream goroutine or a "
+           "library goroutine) count as the library's; previous attempt may have ended by a handler failure; bytes may arrive in pieces",
+    "C06": _ALL5 + "; previous attempt may have ended by a handler failure; temporary handler errors; mapper failing with a complete table description; bytes may arrive in pieces",
+    "C07": _E2E5 + "; the caller may reposition the streamer between attempts (also to the value it set first); a connection may be cut inside the next transaction; the write of the dump "
+           "command may fail on the replica's side (no dump reaches the master, position unchanged)",
+    "C08": _ALL5 + "; whole columns (bytes, name, absent flag) are scribbled; the handler may refuse a transaction it has scribbled over with a temporary error (nobody may be handed that copy); "
+           "retained transactions are serialised to JSON before they are verified again; runs of 3-8 packets whose payload lengths sit on and next to 4096, 8192, 65536 and 262144 bytes; "
+           "bytes may arrive in pieces",
+    "C09": _ALL5 + "; decoding the cells of an image leaves the image as it was; TableMap() / Rows() of the same event a second time answer the same",
+    "C10": _ALL5 + "; every cell is decoded a second time (same text, same length, first result untouched)",
+    "C11": _ALL5 + "; every cell is decoded a second time",
+    "C12": _ALL5 + "; every cell is decoded a second time",
+    "C13": _ALL5 + "; every cell is decoded a second time; values of 2^24-2 .. 2^24+1 bytes directly, and end to end through events that need several protocol packets (payload one below, "
+           "exactly at and beyond 2^24-1 bytes)",
+    "C14": _ALL5 + "; every cell is decoded a second time",
+    "C15": _ALL5,
+    "C16": _ALL5 + "; every control event is decoded a second time",
+    "C17": _ALL5,
+    "C18": _ALL5 + "; one case in six has a server with 9-40 short intervals and operations on their first / last numbers, inside them and in the gaps",
+    "C19": _ALL5,
+    "C20": _ALL5 + "; serialising must leave the transaction as it was",
+}
+for _id, _txt in ROUND5_ADDENDA.items():
+    CHECKS[_id]["rule"] += ". Fifth round: " + _txt
 for _id, _c in CHECKS.items():
     if _c.get("fuzz") and _id not in ("C14", "C17"):
         _c["rule"] += ". Thorough tier: the generated part is additionally driven by go's native coverage-guided fuzzer (rapid.MakeFuzz), 45 s on all cores"
